@@ -110,6 +110,11 @@ class Check:
         except Unsupported as e:
             self.undecided.append((qualname, "unsupported construct: %s" % e))
             return []
+        except z3.Z3Exception as e:
+            # a clause of the sidecar contract is ill-sorted for this function's current parameter
+            # types: the contract no longer describes the function - undecided, not a crash
+            self.undecided.append((qualname, "contract does not type-check against the function's current signature: %s" % str(e)[:160]))
+            return []
         self.assumptions |= eng.sem.assumptions
         for a in eng.assumed:
             self.assumptions.add("definitional axiom instance assumed: " + a)
